@@ -89,8 +89,8 @@ def main(pid, argv):
         ck.count("len:" + ("<=16" if len(x) <= 16 else "<=256" if len(x) <= 256 else "<=4096" if len(x) <= 4096 else ">4096"))
         if ic not in ("OK", "ERR"):
             n_fail += 1
-            if n_fail <= 3:
-                small = C.shrink(binp, x, lambda d, r: C.cls(r) == ic)
+            if True:
+                small = C.shrink(binp, x, lambda d, r: C.cls(r) == ic) if n_fail <= 3 else x
                 ck.fail("idl-not-total", V.hexs(small), "idl.New does not return a tree or an error: " + il[:200],
                         impl=il[:300], model=ml[:100], extra=dict(original=V.hexs(x)[:400], generator=k, text=repr(small[:200])))
         elif mc not in ("OK", "ERR"):
